@@ -1,6 +1,6 @@
 (* C03 property theorems. This file contains only statements closed by
    [exact lemma] and Print Assumptions. *)
-From V Require Import Common.Base C03.Num C03.SpecOps C03.NumProofs C03.Tree C03.Fold C03.MiniJS C03.TreeProofs C03.TreeProofs2 C03.Refuted.
+From V Require Import Common.Base C03.Num C03.SpecOps C03.NumProofs C03.Tree C03.Fold C03.MiniJS C03.Worlds C03.TreeProofs C03.TreeProofs2 C03.TreeProofs3 C03.TreeProofs4 C03.Refuted.
 
 (* js_ast.ToInt32 computes ECMA-262 ToInt32 for every float64 (finite dyadic of
    any magnitude, NaN, infinities), whatever Go's implementation-defined
@@ -39,29 +39,27 @@ Theorem fold_int_ops_is_spec :
 Proof. exact fold_int_ops_is_spec_all. Qed.
 Print Assumptions fold_int_ops_is_spec.
 
-(* ToBooleanWithSideEffects is sound over MiniJS, for every world (environments,
-   probe oracle, operator semantics): the truthiness it reports is the
+(* ToBooleanWithSideEffects is sound over MiniJS, for every world (effectful
+   calls, getters, conversions ...): the truthiness it reports is the
    truthiness of every normal completion, and NoSideEffects means normal
-   completion with an unchanged trace *)
+   completion with an unchanged trace.  [flags_ok]: the parser's annotations
+   (pure marks, typeof-identifier marks) are true in the world *)
 Theorem to_boolean_sound :
-  forall unbound lenv genv oracle un_sem bin_sem e tr tr' out b se,
-    wf_flags e ->
-    eval unbound lenv genv oracle un_sem bin_sem tr e = Some (tr', out) ->
+  forall (W : world) e tr tr' out b se,
+    flags_ok W e ->
+    eval W tr e = Some (tr', out) ->
     to_boolean e = (b, se, true) ->
     (forall v, out = Val v -> truthy v = b) /\ (se = true -> tr' = tr /\ exists v, out = Val v).
 Proof. exact to_boolean_sound_all. Qed.
 Print Assumptions to_boolean_sound.
 
-(* ToNullOrUndefinedWithSideEffects is sound over MiniJS, for every world in which
-   the operators left abstract never produce null/undefined (what ECMA-262
-   guarantees of + - ~, arithmetic, relational and equality operators) *)
+(* ToNullOrUndefinedWithSideEffects is sound, for every world that respects the
+   result types ECMA-262 guarantees of the operators ([world_ok]) *)
 Theorem to_nullish_sound :
-  forall unbound lenv genv oracle un_sem bin_sem,
-    (forall op v t tr' w, un_sem op v t = (tr', Val w) -> nullish w = false) ->
-    (forall op a b t tr' w, bin_sem op a b t = (tr', Val w) -> nullish w = false) ->
+  forall (W : world), world_ok W ->
     forall e tr tr' out b se,
-    wf_flags e ->
-    eval unbound lenv genv oracle un_sem bin_sem tr e = Some (tr', out) ->
+    flags_ok W e ->
+    eval W tr e = Some (tr', out) ->
     to_nullish e = (b, se, true) ->
     (forall v, out = Val v -> nullish v = b) /\ (se = true -> tr' = tr /\ exists v, out = Val v).
 Proof. exact to_nullish_sound_all. Qed.
@@ -71,12 +69,34 @@ Print Assumptions to_nullish_sound.
    short-circuit operators it is used with (&&, ||, ??): same trace, same
    completion, in every world *)
 Theorem join_left_assoc_equiv :
-  forall unbound lenv genv oracle un_sem bin_sem op, short_circuit op ->
-    forall b a tr,
-      eval unbound lenv genv oracle un_sem bin_sem tr (join_left op a b)
-      = eval unbound lenv genv oracle un_sem bin_sem tr (EBin op a b).
+  forall (W : world) op, short_circuit op ->
+    forall b a tr, eval W tr (join_left op a b) = eval W tr (EBin op a b).
 Proof. exact join_left_assoc_equiv_all. Qed.
 Print Assumptions join_left_assoc_equiv.
+
+(* KnownPrimitiveType is sound w.r.t. the value semantics: whatever value an
+   expression produces in whatever world has the reported type (Mixed = some
+   primitive other than a symbol) *)
+Theorem known_type_sound :
+  forall (W : world), world_ok W ->
+    forall e tr tr' v, eval W tr e = Some (tr', Val v) -> type_ok (known_type e) v = true.
+Proof. exact known_type_sound_all. Qed.
+Print Assumptions known_type_sound.
+
+(* ExprCanBeRemovedIfUnused is sound over the whole modelled AST (calls, new,
+   property reads, templates, array/object literals with spreads and computed
+   keys, guarded references to undeclared globals ...) and every effectful
+   world: if the model says true, evaluating e emits no trace event and
+   completes normally.  The world has no other mutable state than the trace
+   (time), on which every effectful operation may depend, so "trace unchanged"
+   is "world unchanged". *)
+Theorem expr_can_be_removed_sound :
+  forall (W : world), world_ok W ->
+    forall e tr tr' out,
+    flags_ok W e -> can_be_removed (w_unbound W) e = true ->
+    eval W tr e = Some (tr', out) -> tr' = tr /\ exists v, out = Val v.
+Proof. exact can_be_removed_sound_all. Qed.
+Print Assumptions expr_can_be_removed_sound.
 
 (* CheckEqualityIfNoSideEffects on two literals (also inlined enum constants)
    answers what IsStrictlyEqual / IsLooselyEqual compute on their values: -0 == 0,
@@ -114,7 +134,7 @@ Print Assumptions fold_pow_special_cases_partial.
    completes normally, the residue k + "" throws TypeError *)
 Theorem simplify_unused_object_key_refuted :
   exists e, simplify_unused ub false e = UExpr (EBin BAdd (EId 1 false false) (EStr []))
-            /\ eval ub lenv_sym genv0 oracle0 un0 bin0 [] e = Some ([], Val VObjLit)
+            /\ eval W0 [] e = Some ([], Val VObjLit)
             /\ ~ simplify_unused_preserves_effects e.
 Proof. exact simplify_unused_object_key_refuted_w. Qed.
 Print Assumptions simplify_unused_object_key_refuted.
